@@ -239,7 +239,9 @@ impl SystemState {
                         .map(|p| p.id)
                         .max()
                         .unwrap_or_else(|| panic!("No partition found"));
-                    for i in 0..command.partitions_count {
+                    // The command may ask for more partitions than the topic had (all of them are
+                    // deleted then): never count below the first partition.
+                    for i in 0..command.partitions_count.min(last_partition_id) {
                         topic.partitions.remove(&(last_partition_id - i));
                     }
                 }
